@@ -63,6 +63,10 @@ class HarnessError(Exception):
     """Something is wrong with the generator / oracle / environment. Never a violation (exit 2)."""
 
 
+class Inconclusive(Exception):
+    """The harness's own time budget cut the evaluation short (machine load): counted, never judged."""
+
+
 def load_known(prop: str) -> list[dict]:
     with open(KNOWN_FILE) as fd:
         data = json.load(fd)
@@ -222,6 +226,8 @@ def run_given(ctx: Ctx, sub: Sub, max_examples: int) -> None:
                 break
             try:
                 sub.fn(ctx, inp)
+            except Inconclusive as exc:
+                ctx.classes[f"inconclusive:{exc}"] += 1
             except Violation as exc:
                 ctx.record_violation(exc, inp)
                 if len(ctx.violations) >= 6:
@@ -237,7 +243,10 @@ def run_given(ctx: Ctx, sub: Sub, max_examples: int) -> None:
             if ctx.out_of_time():
                 return
             last["inp"] = inp
-            sub.fn(ctx, inp)
+            try:
+                sub.fn(ctx, inp)
+            except Inconclusive as exc:
+                ctx.classes[f"inconclusive:{exc}"] += 1
 
         try:
             test()
@@ -259,6 +268,8 @@ def run_enumerate(ctx: Ctx, sub: Sub, shard: int, nshards: int) -> None:
             break
         try:
             sub.fn(ctx, inp)
+        except Inconclusive as exc:
+            ctx.classes[f"inconclusive:{exc}"] += 1
         except Violation as exc:
             ctx.record_violation(exc, inp)
             if len(ctx.violations) >= 8:
